@@ -13,4 +13,5 @@ import (
 	_ "verif/props/c09"
 	_ "verif/props/c10"
 	_ "verif/props/c11"
+	_ "verif/props/c12"
 )
